@@ -285,7 +285,7 @@ pub fn run_case(input: &Value, env: &Env) -> RunOut {
                         _ => Canned::ok(b"<notification this is not xml".to_vec()),
                     }
                 } else { Canned::ok(body) };
-                if etag { canned = canned.with_etag(&format!("\"s{}-n{}\"", n["session"].as_u64().unwrap(), n["serial"].as_u64().unwrap())); }
+                if etag && k != "bad" { canned = canned.with_etag(&format!("\"s{}-n{}\"", n["session"].as_u64().unwrap(), n["serial"].as_u64().unwrap())); }
                 env.srv.set(&notify_path, canned);
                 if k == "bad" { "NBad".to_string() } else {
                     format!("(NOk {{| nf_session := {}; nf_serial := {}; nf_snap_ref := {}; nf_snap_dig := {}; nf_deltas := {} |}})",
